@@ -341,6 +341,7 @@ def exec_for(ev: Ev, node):
         assume_invariants(ev, loop_no, {idx_name: VInt(idx)})
         if st.decide(idx < stop):
             ev.assign(node.target, VInt(idx))
+            ev.frame.root().loop_vars["IDX%d" % loop_no] = VInt(idx)
             r = _iteration(ev, node, loop_no, lambda: ev.block(node.body), lambda: None,
                            lambda: {idx_name: VInt(idx + step)}, line)
             if r == "break":
@@ -426,6 +427,8 @@ def exec_for(ev: Ev, node):
         pos = idx if mode == "fwd" else n - 1 - idx
         item = ev.list_get(snap, pos)
         ev.assign(node.target, VTuple([VInt(pos), item]) if enum else item)
+        ev.frame.root().loop_vars["IDX%d" % loop_no] = VInt(idx)
+        ev.frame.root().loop_vars["SEQ%d" % loop_no] = snap_ref
         r = _iteration(ev, node, loop_no, lambda: ev.block(node.body), lambda: None,
                        lambda: {"IDX": VInt(idx + 1), "SEQ": snap_ref}, line)
         if r == "break":
